@@ -154,6 +154,9 @@ def run(ctx):
     # the entries whose operands are context-dependent, paired or nested (OpConstant, OpSpecConstant, OpSwitch, OpSpecConstantOp,
     # OpGroupMemberDecorate, OpPhi): parse_inst from MIR against the grammar entry (C03's machinery)
     c03.entry_runs(ctx, q, S, rp, only_special=True)
+    # 'grammar-conforming' means conforming to the Khronos grammar: the table the parser reads must be that grammar (pinned snapshot)
+    import c09
+    c09.snapshot_diff(ctx, "core", S.T["core"], S.T)
     rp.close()
     ctx.validated = rp.count
     hs = ["k_string_pack"] if ctx.tier == "thorough" else ["k_string_pack_small"]
